@@ -165,8 +165,10 @@ class Ctx:
             rc, out = sh("./setup.sh quiet", cwd=ROOT, timeout=3000)
             fcntl.flock(lf, fcntl.LOCK_UN)
         if rc != 0:
-            self.log(out[-3000:])
-            raise RuntimeError("static Coq build failed")
+            # some file of the static tree failed; a check that depends on it will fail its own
+            # obligations (prove_static / coqc), others are unaffected
+            self.log("static build reported errors (continuing):\n" + out[-1500:])
+            self.notes.append("static build reported errors: " + out[-500:])
 
     def coqc(self, vfile: Path, timeout=900, logical="Gen"):
         """Compile one generated file that lives in build/<pid>/ ; returns (rc, out)."""
